@@ -81,12 +81,19 @@ thread_local! {
     static QUIET: std::cell::Cell<bool> = const { std::cell::Cell::new(false) };
 }
 
+static QUIET_ALL: AtomicBool = AtomicBool::new(false);
+
+/// Suppresses panic output of all threads (used while uncontrolled helper threads may panic).
+pub fn quiet_all(on: bool) {
+    QUIET_ALL.store(on, SeqCst);
+}
+
 pub fn install_panic_hook() {
     let default = std::panic::take_hook();
     std::panic::set_hook(Box::new(move |info| {
         let msg = format!("{info}");
         LAST_PANIC.with(|p| *p.borrow_mut() = Some(msg));
-        if !QUIET.with(|q| q.get()) {
+        if !QUIET.with(|q| q.get()) && !QUIET_ALL.load(SeqCst) {
             default(info);
         }
     }));
